@@ -21,7 +21,7 @@ META = {
     "(C17_determinism).  The synchronous loop always ends: with max_concurrent != 0 it performs at most 2*(jobs) + 2*(nodes) + 3 "
     "iterations, jobs = number of jobs of the reference solution (sync_log_bound, C17_sync_terminates), so the fuel of the model's runSync is no caveat.  With rerun=True under the debug worker without a limit a successful "
     "submission returns the reference outputs of THIS submission's body values whatever the cache held before "
-    "(C17_rerun_sync_unlimited); with a limit or an asynchronous worker old and new values can mix (finding D71, C15).  Job lists may be empty (a split over an empty list, literal or produced upstream at run time): the "
+    "(C17_rerun_sync_unlimited); with a limit or an asynchronous worker old and new values can mix (finding D73, C15).  Job lists may be empty (a split over an empty list, literal or produced upstream at run time): the "
     "theorems rest on 'every node is done', and C17_empty_split_regression / C17_while_tasks_witness show by computation that both "
     "loops go on after a zero-job node while a loop that only looks at runnable tasks stops early with different outputs.  Tied "
     "to the code by running generated workflows (splits, inherited splits, duplicate checksums, diamonds, EMPTY splits given "
